@@ -320,6 +320,24 @@ for _k, _v in ADDED.items():
     if _k in CHECKS and _v not in CHECKS[_k]["text"]:
         CHECKS[_k]["text"] = CHECKS[_k]["text"] + _v
 
+# rules added in round 7 (second session)
+ADDED7 = {
+    "C01": " (R11) the geometry kernels of cdiffraction.c store only into arrays their .pyf block declares out / inout: interprocedural write sets (direct stores, stores through local row pointers, memcpy destinations, arguments a callee writes; static helpers read in place) - the lab coordinates are reused for every grain and every call.",
+    "C03": " R4 also evaluates a blocked (tiled) enumeration of the index box for small half-widths: every index is visited exactly once (an inclusive block end that is the next block's start lists a plane of reflections twice).",
+    "C04": " (R10) no lazily cached quantity of a grain (UB, B, U, mt, rmt, unitcell) is computed by a formula selected by a tolerance test (np.allclose / isclose / abs(x - c) < eps): a special-case formula is exact only at the special case.",
+    "C09": " (R10) an angle difference that feeds a symmetric clip is wrapped to (-180, 180] with d - 360*round(d/360); a one-sided remainder (fmod, %, numpy.mod) reaching numpy.clip(d, -s, s) is reported (reaching definitions on the flow graph).",
+    "C10": " (R7) a strain tensor (map) of one frame is never obtained from the other frame's tensor by rotating with the Busing-Levy orientation U: the two are related by the polar rotation of F (found F36 in TensorMap, repaired with a polar-rotation kernel; R5 now accepts self.polar_rotation() for strain maps).",
+    "C11": " (R7) a label image kept on the object (labelimage.blim, SparseScan.labels) is rewritten on every path of the function that labels a frame: must-pass-through of a kernel call or a zero fill before every normal exit.",
+    "C13": " (R9) sparse_localmaxlabel links pixel k with an earlier stored pixel only when the conditions dominating the link admit nothing but 8-neighbours: finite case analysis over the row / column distances admissible for sorted input.",
+    "C14": " (R8) sparse_frame.to_dense: a caller-supplied 'out' is overwritten as a whole (coo_matrix.todense(out=)) or zero-filled before the pixels are scattered into it.",
+    "C16": " (R7) point_by_point.idxpoint returns only orientations that went through sym_u.find_uniq_u, on the one-candidate early return as well as from the sorted loop (dominance on the flow graph).",
+    "C17": " R4 also covers a whole-table selection self.__data[:, rows] stored into the copy. R9 also forbids storing permuted values INTO the old column arrays when a writer keeps the caller's array (overlapping views; found F37); R2 no longer demands in-place stores.",
+    "C18": " (R8) sparse-frame groups: from_hdf_group reads every dataset and attribute it finds, so to_hdf_group deletes the datasets and per-array attributes of an earlier save that it does not write (found F38).",
+}
+for _k, _v in ADDED7.items():
+    if _k in CHECKS and _v not in CHECKS[_k]["text"]:
+        CHECKS[_k]["text"] = CHECKS[_k]["text"] + _v
+
 NOT_YET = {}
 
 NOT_APPLICABLE = {
